@@ -45,10 +45,47 @@ class Case:
                 "dims": list(self.dims), "params": self.params}
 
 
-def _pixels(rng, n, style=None):
+def margins(rng, pix, line):
+    """Black (colour 0) margins as real pictures have them: whole lines at the top and/or the
+    bottom; sometimes a sentinel as the very last byte."""
+    pix = bytearray(pix)
+    c = rng.random()
+    if c < 0.25:
+        m = rng.choice((1, 8, 8, 16)) * line
+        if rng.random() < 0.7:
+            pix[:m] = bytes(min(m, len(pix)))
+        if rng.random() < 0.5:
+            pix[max(0, len(pix) - m):] = bytes(min(m, len(pix)))
+    if pix and rng.random() < 0.15:
+        pix[-1] = rng.choice((0x1A, 0x1A, 0x00, 0x0A))
+    return bytes(pix)
+
+
+def lookalike(rng, data, start, total_candidates):
+    """With a small probability make the first bytes after `start` look like a LOADM preamble
+    (00, length hi, length lo, addr hi, addr lo) whose length matches one of the candidates."""
+    if rng.random() < 0.04 and len(data) >= start + 5:
+        n = rng.choice(total_candidates) & 0xFFFF
+        data = bytearray(data)
+        data[start:start + 5] = bytes([0, n >> 8, n & 255, 0x0E, 0x00])
+    return bytes(data)
+
+
+def _pixels(rng, n, style=None, line=160):
     """n payload bytes: runs, noise, or a mixture (so that compressors have work)."""
-    style = style or rng.choice(("runs", "noise", "noise", "mixed", "mixed", "flat", "sentinel"))
+    style = style or rng.choice(("runs", "noise", "noise", "mixed", "mixed", "flat", "sentinel", "rows"))
     out = bytearray()
+    if style == "rows":
+        # horizontal bands: every `line`-byte row is one or two flat stretches, so that run
+        # and record boundaries of the compressors coincide with row starts
+        body = bytearray()
+        while len(body) < n:
+            if line < 2 or rng.random() < 0.7:
+                body += bytes([rng.getrandbits(8)]) * line
+            else:
+                k = rng.randrange(1, line)
+                body += bytes([rng.getrandbits(8)]) * k + bytes([rng.getrandbits(8)]) * (line - k)
+        return bytes(body[:n])
     if style == "sentinel":
         # bytes that text-mode, strip/split or sentinel-terminated loops treat specially
         sent = (0x00, 0x0A, 0x0D, 0x1A, 0x20, 0xFF, 0x80)
@@ -107,9 +144,12 @@ def gen_hrs(rng, small=True, odd_ok=False, with_opts=True):
     # palette bytes: the decoder ignores bits 6-7, so any byte is well-formed
     data += bytes(rng.getrandbits(8) for _ in range(16))
     rowb = (w + 1) // 2
+    pstart = len(data)
     for y in range(r):
-        smap.append((len(data), "row"))
-        data += _pixels(rng, rowb, "noise" if rowb < 8 else None)
+        smap.append((pstart + y * rowb, "row"))
+    data += margins(rng, _pixels(rng, rowb * r, None, line=max(1, rowb)), max(1, rowb))
+    # a palette that happens to look like a LOADM preamble for this very file
+    data = bytearray(lookalike(rng, data, s, (16 + (w // 2) * r, len(data) - s, len(data) - s - 5, (w // 2) * r)))
     return Case("hrs", opts, data, smap, (w, r), {"w": w, "r": r, "s": s}, skip=s)
 
 
@@ -159,9 +199,10 @@ def gen_max(rng, small=True, w8_only=True, with_opts=True):
     fsize = size if not use_r else rng.choice((size & 0xFFFF, rng.randrange(65536)))
     data += bytes([0, (fsize >> 8) & 255, fsize & 255, rng.getrandbits(8), rng.getrandbits(8)])
     smap += [(h, "magic"), (h + 1, "size"), (h + 2, "size"), (h + 3, "flag"), (h + 4, "flag")]
+    pstart = len(data)
     for y in range(rows):
-        smap.append((len(data), "row"))
-        data += _pixels(rng, rowb, "noise" if rowb < 8 else None)
+        smap.append((pstart + y * rowb, "row"))
+    data += margins(rng, _pixels(rng, rowb * rows, None, line=max(1, rowb)), max(1, rowb))
     smap.append((len(data), "trailer"))
     data += bytes([0xFF, 0, 0, rng.getrandbits(8), rng.getrandbits(8)])
     return Case("max", opts, data, smap, (w, rows),
@@ -188,9 +229,10 @@ def gen_art(rng, small=True, with_opts=True):
     smap = [(0, "skip")] if s else []
     smap += [(len(data), "size"), (len(data) + 1, "size")]
     data += bytes([cb, rows])
+    pstart = len(data)
     for y in range(rows):
-        smap.append((len(data), "row"))
-        data += _pixels(rng, cb, "noise" if cb < 8 else None)
+        smap.append((pstart + y * cb, "row"))
+    data += margins(rng, _pixels(rng, cb * rows, None, line=cb), cb)
     return Case("art", opts, data, smap, (cb * 8, rows),
                 {"cols_bytes": cb, "rows": rows, "s": s, "mode": mode}, skip=s)
 
@@ -203,6 +245,7 @@ def gen_pix(rng, small=True):
         k = rng.choice((127, 128, 128, 129, 181, 64, 256))
     n = 2 * k * k
     data = _pixels(rng, n)
+    data = lookalike(rng, margins(rng, data, max(1, k)), 0, (n, n - 5, 2 * k * k))
     smap = [(y * k, "row") for y in range(2 * k)]
     return Case("pix", [], data, smap, (2 * k, 2 * k), {"k": k})
 
@@ -249,7 +292,8 @@ def gen_mge(rng, small=True):
     raw = rng.random() < 0.4
     rgb = rng.random() < 0.6
     hdr, smap = mge_header(rng, raw, rgb)
-    pix = _pixels(rng, 32000, rng.choice(("runs", "flat", "mixed")) if not raw else None)
+    pix = margins(rng, _pixels(rng, 32000, rng.choice(("runs", "flat", "mixed", "rows")) if not raw else None),
+                  160)
     if raw:
         body = pix
         smap += [(51 + 160 * y, "row") for y in range(0, 200, 8)]
@@ -288,7 +332,7 @@ def rat_stream(rng, pix, esc):
 
 def gen_rat(rng, small=True):
     esc = rng.getrandbits(8)
-    pix = _pixels(rng, 199 * 160, rng.choice(("runs", "flat", "mixed", "mixed")))
+    pix = margins(rng, _pixels(rng, 199 * 160, rng.choice(("runs", "flat", "mixed", "mixed", "rows"))), 160)
     if rng.random() < 0.2:
         # an escape byte that is also a frequent pixel value, or 0x00 / 0xFF
         esc = rng.choice((0, 0xFF, pix[0], pix[len(pix) // 2], pix[-1]))
@@ -354,13 +398,13 @@ def gen_cm3(rng, small=True):
         smap.append((len(data), "row"))
         data += bytes(rng.getrandbits(8) for _ in range(243))
     linbuf = [0] * 160
-    style = rng.choice(("runs", "flat", "mixed"))
+    style = rng.choice(("runs", "flat", "mixed", "rows"))
     praw = rng.choice((0.0, 0.1, 0.5, 1.0))
     blank_top = rng.random() < 0.5
     for p in range(pages):
         smap.append((len(data), "page"))
         data.append(192)
-        pix = _pixels(rng, 192 * 160, style)
+        pix = margins(rng, _pixels(rng, 192 * 160, style), 160)
         for y in range(192):
             want = list(pix[y * 160:(y + 1) * 160])
             if y == 0 and blank_top:
@@ -464,7 +508,8 @@ def gen_vef(rng, small=True):
     pal = _palette(rng)
     hdr = bytes([0x80 if squashed else rng.choice((0, 1, 0x7F))]) + bytes([typ]) + pal
     smap = [(0, "magic"), (1, "magic")] + [(2 + i, "pal") for i in range(16)]
-    pix = _pixels(rng, 400 * rl, rng.choice(("runs", "mixed", "mixed", "mixed", "flat")) if squashed else None)
+    pix = margins(rng, _pixels(rng, 400 * rl, rng.choice(("runs", "mixed", "mixed", "rows", "flat"))
+                               if squashed else None, line=2 * rl), 2 * rl)
     data = bytearray(hdr)
     if squashed:
         for r in range(400):
